@@ -345,6 +345,9 @@ def run(ck):
     ck.gen_from_source()
     ck.coq_build(["props/C10.vo", "extract/C10_extract.vo"])
     ck.print_assumptions(["DSP.C10"], ["DSP.C10." + t for t in THEOREMS])
+    ck.source_tie("eval")
+    ck.source_tie("onerror")
+    ck.source_tie("runner")
     ck.hygiene()
     ck.ocaml_build()
     ck.harness_build(["c10"])
